@@ -50,6 +50,12 @@ def concretise(script, conf, rnd, big=(150000, 400000)):
         elif op == "cut":
             steps.append(("cut", st["how"]))
             closes += ["app", "tgt"]     # after a link failure both outer sides are watched for their end
+        elif op == "hold":
+            # the surviving side has seen the end (waited for below), keeps its connection and stays silent
+            for side in closes:
+                steps.append(("wait_end", "tgt" if side == "app" else "app"))
+            closes = []
+            steps.append(("hold",))
     if reach != "ok":
         steps.append(("wait_end", "app"))
     else:
@@ -94,7 +100,57 @@ def random_script(rnd, max_steps=8, big=(100000, 600000), pauses=True):
     return steps
 
 
+def halfclose_script(rnd, big=(100000, 400000)):
+    """One side finishes SENDING (half-close) and goes on reading; the other side answers after it has seen that end and then
+    closes.  RelayAbs: the half-closed side is still owed the complete answer (HalfCloseComplete) unless the flow lapsed."""
+    sizes = lambda: rnd.choice([1, rnd.randint(1, 3000), rnd.choice(sum(BOUNDARY.values(), [])), rnd.randint(*big)])  # noqa: E731
+    if rnd.random() < 0.7:
+        steps = [("up", rnd.choice([1, rnd.randint(1, 3000), rnd.randint(1, 70000)])), ("app_close", "fin"), ("wait_end", "tgt")]
+        for _ in range(rnd.randint(1, 3)):
+            steps.append(("down", sizes()))
+            if rnd.random() < 0.3:
+                steps.append(("pause", rnd.choice([0.02, 0.2])))
+        steps += [("tgt_close", rnd.choice(["close", "fin"])), ("wait_end", "app")]
+    else:
+        steps = [("up", rnd.randint(1, 3000)), ("down", sizes()), ("tgt_close", "fin"), ("wait_end", "app")]
+        for _ in range(rnd.randint(1, 3)):
+            steps.append(("up", sizes()))
+            if rnd.random() < 0.3:
+                steps.append(("pause", rnd.choice([0.02, 0.2])))
+        steps += [("app_close", rnd.choice(["close", "fin"])), ("wait_end", "tgt")]
+    return steps
+
+
+def pressure_script(rnd, mb=(20, 26)):
+    """Back-pressure: the reader of one direction is slow (and its socket buffer small), the writer sends far more than the
+    kernels and the two processes can hold and closes at once, so the relay learns of the end while every buffer of that
+    direction is still full.  Everything written must still arrive, followed by the end."""
+    d = rnd.choice(["down", "down", "up"])
+    reader, closer = ("app", "tgt_close") if d == "down" else ("tgt", "app_close")
+    n = rnd.randint(mb[0] << 20, mb[1] << 20)
+    return [("up", rnd.randint(1, 2000)), ("sync",), ("throttle", reader, 0.004), (d, n), (closer, rnd.choice(["close", "fin"])),
+            ("wait_end", reader)]
+
+
+def hold_script(rnd, big=(100000, 300000)):
+    """One outer side closes for good, the other sees the end, keeps its connection open and stays silent (a peer that ignores
+    end-of-stream, or one that is gone without a trace): both processes have to let go of the flow on their own."""
+    steps = [("up", rnd.choice([1, rnd.randint(1, 3000), rnd.randint(1, 70000)]))]
+    if rnd.random() < 0.6:
+        steps.append((rnd.choice(["up", "down"]), rnd.choice([rnd.randint(1, 3000), rnd.randint(*big)])))
+    steps.append(("sync",))
+    if rnd.random() < 0.5:
+        steps += [("app_close", rnd.choice(["close", "rst"])), ("wait_end", "tgt")]
+    else:
+        steps += [("tgt_close", rnd.choice(["close", "rst"])), ("wait_end", "app")]
+    steps.append(("hold",))
+    return steps
+
+
 HOSTS = [("127.0.0.1", None), ("127.0.0.2", None), ("127.0.0.1", "localhost"), ("127.0.0.3", None)]
+
+
+HOLD_S = 5.0        # close grace of both relays (2 s) and a margin
 
 
 async def run_batch(dep, flows_spec, seed, log=None, fid0=1, settle_cap=9.0, mbox=None, end_cap=6.0):
@@ -110,16 +166,42 @@ async def run_batch(dep, flows_spec, seed, log=None, fid0=1, settle_cap=9.0, mbo
         fl = e2e.TcpFlow(fid0 + i, kind, ip, steps, seed, log, chunk=chunk, hostname=name, reach=reach, mbox=mbox)
         await fl.listen()
         flows.append(fl)
-    res = await asyncio.gather(*[f.run(dep.client_port, end_cap=end_cap) for f in flows], return_exceptions=True)
+    holders = [f for f in flows if any(st[0] == "hold" for st in f.steps)]
+    release = asyncio.Event()
+    for f in holders:
+        f.hold = (asyncio.Event(), release)
+    held = []
+
+    async def warden():
+        # every holding flow has reached its hold (or ended on the way); the harness keeps all those connections open and
+        # silent for HOLD_S, reads the socket counts of both processes (poll until they equal the idle baseline, bounded),
+        # and only then lets the flows go on to close their sockets
+        await asyncio.gather(*[asyncio.wait([asyncio.ensure_future(f.hold[0].wait()), f._done], return_when=asyncio.FIRST_COMPLETED)
+                               for f in holders])
+        await asyncio.sleep(HOLD_S)
+        cur = await dep.stable_fds(baseline=base, cap=3.0)
+        held.append(cur)
+        release.set()
+
+    for f in flows:
+        f._done = asyncio.ensure_future(f.run(dep.client_port, end_cap=end_cap))
+    w = asyncio.ensure_future(warden()) if holders else None
+    res = await asyncio.gather(*[f._done for f in flows], return_exceptions=True)
+    if w is not None:
+        await w
     for r in res:
         if isinstance(r, BaseException):
             raise vlib.ToolError("harness flow failed: %r" % (r,))
+    ws = dep.conf.transport in ("ws", "wss")
     ev = [{"ev": "Idle", "c": base[0][0], "s": base[1][0]}]
     for f in flows:
-        ev.append({"ev": "Reset", "flow": f.f, "kind": f.kind, "conf": dep.conf.label})
-        ev += e2e.trace_of_flow(log, f.f)
+        ev.append({"ev": "Reset", "flow": f.f, "kind": f.kind, "conf": dep.conf.label, "ws": ws})
+        ev += [e for e in e2e.trace_of_flow(log, f.f) if e["ev"] != "Released"]
+    if held:
+        ev.append({"ev": "Reset", "flow": 0, "kind": "process", "conf": dep.conf.label, "ws": ws})
+        ev.append({"ev": "Held", "c": held[0][0][0], "s": held[0][1][0], "flows": len(holders)})
     fin = await dep.stable_fds(baseline=base, cap=settle_cap)
-    ev.append({"ev": "Reset", "flow": 0, "kind": "process", "conf": dep.conf.label})
+    ev.append({"ev": "Reset", "flow": 0, "kind": "process", "conf": dep.conf.label, "ws": ws})
     ev.append({"ev": "Settled", "c": fin[0][0], "s": fin[1][0]})
     ev.append({"ev": "Panic", "n": len(dep.panics())})
     return ev
@@ -154,6 +236,9 @@ def judge(c, tag, batches, what):
     rejected = []
     rounds = 0
     pending = segs
+    # open findings (known_findings.json, never the trace) switch the matching deviation steps of TraceRelay on
+    env = {"DEV_" + f["deviation"]: "1" for f in c.open_findings() if f.get("deviation")}
+    dev_seen = set()
     while pending and rounds < 12:
         rounds += 1
         path = os.path.join(wd, "%s_r%d.ndjson" % (what, rounds))
@@ -163,8 +248,19 @@ def judge(c, tag, batches, what):
             index.append((len(flat) + 1, len(flat) + len(s), s))
             flat += s
         e2e.write_ndjson(path, flat)
-        acc, matched, r = validate_trace("TraceRelay", "TraceRelay.cfg", path, timeout=1200)
+        acc, matched, r = validate_trace("TraceRelay", "TraceRelay.cfg", path, timeout=1200, env=env)
         c.tlc_stats(r)
+        import re
+        for m in re.finditer(r'"DEV-USED", "(\w+)", (\d+)', r.out):
+            at = int(m.group(2))
+            seg = [sg for a, b, sg in index if a <= at <= b]
+            key = (m.group(1), id(seg[0]) if seg else (rounds, at))
+            if key in dev_seen:
+                continue
+            dev_seen.add(key)
+            f = c.match_known(m.group(1))
+            if f:
+                c.known_hit(f, seg[0][1].get("conf") if seg else None)
         if acc:
             flows_ok += len(pending)
             events_ok += len(flat)
@@ -205,7 +301,7 @@ def model(c, tier, devs=True):
         if not r.ok:
             c.violation("model: TcpRelay (%s) violates %s" % (k, r.violated or r.error), {"cfg": k, "tail": r.out[-3000:]})
     if devs:
-        names = ["DropOnFirstClose", "DropOnFirstClose_tcp", "DropOnFirstClose_quic", "QuicNoWaitStopped", "JoinBoth", "NoSinkClose"]
+        names = ["DropOnFirstClose", "DropOnFirstClose_tcp", "DropOnFirstClose_quic", "QuicNoWaitStopped", "JoinBoth", "NoSinkClose", "WsCloseEndsBoth"]
         jobs = [dict(module="MCTcpRelay", cfg="MCTcpRelay_dev_%s.cfg" % k, workers=2, timeout=900) for k in names]
         res = vlib.tlc_parallel(jobs, parallel=4)
         seen = {}
